@@ -81,23 +81,23 @@ func lower(s string) string {
 var modes = []string{"off", "no_repeat", "interrupt", "retrigger"}
 
 type genOpts struct {
-	prop       string
-	mode       string // "" = draw
-	nKeys      [2]int
-	nMaps      [2]int
-	notePool   []int // base notes to draw from (small pool => collisions)
-	offsets    bool
-	actions    []string
-	exitLen    int // -1 = no exit_sequence key at all
-	exitShared bool
-	defaults   bool // draw non-neutral defaults
-	unmapProb  float64
-	remapProb  float64
-	axes       int
-	axisKinds  []string // cc, cc2 (bidirectional), pitch_bend, key, key1 (one sided), none
-	axisKindsPerMapping bool // draw the kind of every axis anew in every further mapping
-	edgeNotes  bool     // key-emulating axes may use notes next to 0 / 127
-	handlers   int
+	prop                string
+	mode                string // "" = draw
+	nKeys               [2]int
+	nMaps               [2]int
+	notePool            []int // base notes to draw from (small pool => collisions)
+	offsets             bool
+	actions             []string
+	exitLen             int // -1 = no exit_sequence key at all
+	exitShared          bool
+	defaults            bool // draw non-neutral defaults
+	unmapProb           float64
+	remapProb           float64
+	axes                int
+	axisKinds           []string // cc, cc2 (bidirectional), pitch_bend, key, key1 (one sided), none
+	axisKindsPerMapping bool     // draw the kind of every axis anew in every further mapping
+	edgeNotes           bool     // key-emulating axes may use notes next to 0 / 127
+	handlers            int
 }
 
 // baseDesc draws a configuration description.
